@@ -4,6 +4,7 @@ import (
 	"errors"
 	"fmt"
 	"net/http"
+	"strings"
 	"time"
 
 	"github.com/resgateio/resgate/server"
@@ -53,6 +54,19 @@ func c20Run(c *RunCtx, cs c20Case) {
 				return
 			}
 		}
+		if cycle > 0 {
+			// nothing cached before the stop may be served after the restart:
+			// its event subscriptions died with the old messaging connection
+			if snap := g.Svc.VerifCache().VerifSnapshot(); len(snap) > 0 {
+				fail("cacheSurvivedRestart", "cycle %d: %d cache entries (first: %s, count %d) exist on the restarted service before any client request", cycle, len(snap), snap[0].Name, snap[0].Count)
+			}
+			// the service changed the data while the gateway was down
+			w.Silent("t.a", func(r *Res) { r.M["x"] = P(100 + cycle) })
+			w.mu.Lock()
+			w.Res["t.a"].Silent = false
+			w.mu.Unlock()
+		}
+		cycleReq0 := g.Bus.NumReqs()
 		stopCh := g.Svc.StopChannel()
 		if stopCh == nil {
 			fail("noStopChannel", "cycle %d: StopChannel is nil on a started service", cycle)
@@ -91,6 +105,30 @@ func c20Run(c *RunCtx, cs c20Case) {
 				}
 			}
 			settleN(50)
+			gets := 0
+			for _, r := range g.Bus.Reqs()[cycleReq0:] {
+				if r.Subject == "get.t.a" {
+					gets++
+				}
+			}
+			if gets == 0 {
+				fail("servedFromOldCache", "cycle %d: subscribe.t.a on the (re)started service was answered without a get request", cycle)
+			}
+			if !g.Bus.HasSub("event.t.a") {
+				fail("servedFromOldCache", "cycle %d: t.a is subscribed by clients but there is no event.t.a subscription on the current messaging connection", cycle)
+			}
+			want := fmt.Sprintf(`"x":%d`, map[bool]int{true: 1, false: 100 + cycle}[cycle == 0])
+			for _, cl := range live {
+				okData := false
+				for _, f := range cl.Frames() {
+					if f.HasRes && strings.Contains(string(f.Raw), `"t.a"`) && strings.Contains(string(f.Raw), want) {
+						okData = true
+					}
+				}
+				if !okData {
+					fail("servedFromOldCache", "cycle %d: client %d did not receive the service's current t.a (%s)", cycle, cl.Idx, want)
+				}
+			}
 		case "outstanding", "mixed":
 			a, b := connect(), connect()
 			if a == nil || b == nil {
